@@ -18,8 +18,40 @@ HOOK_COMMITS = ["e513492"]
 
 NOT_APPLICABLE = {}
 
+def T(what, oracle):
+    return {"technique": what, "level_text": oracle}
+
+
+SEQ_LEVEL = ("Generated-input exploration (no absence claim): random command histories are executed against the real binary; after each step "
+             "the reference model's verdict (MUST_ACCEPT / MUST_REJECT / EITHER), the expected resulting state and the state invariants "
+             "are compared with what list/show and the raw log report. Failing histories are shrunk by rapid and then by greedy op deletion. ")
+
 CHECKS = {
+    "C05": {"level": "exploration", "parts": [seq("TestC05", 45, 900)], "assumptions": COMMON_ASSUMPTIONS,
+            "technique": "metamorphic + differential property testing (rapid): compact(copy) must equal original on every observable field, compact∘compact idempotent, and a generated command suffix must behave identically on compacted and uncompacted copies",
+            "level_text": SEQ_LEVEL + "C05 oracle: snapshot equality across compaction on all fields incl. timestamps, result order, ready/blocked; idempotence of the event sequence; equal exit codes and snapshots for every later command on both copies (includes the claim hand-out order)."},
     "C06": {"level": "exploration", "parts": [seq("TestC06", 60, 1500)], "assumptions": COMMON_ASSUMPTIONS,
             "technique": "model-based stateful property testing (rapid): generated command histories vs a reference state machine + claim invariant after every step",
-            "level_text": "Generated-input exploration: thousands of random command histories over every request shape (state field, implied by claim, claim <id>, at creation; three input modes) are run against the real binary; after each step the reference model's MUST_ACCEPT/MUST_REJECT verdict, the expected resulting state/claimant and the claim invariants are compared with what list/show report. Right level because the property quantifies over histories and inputs and has an executable oracle; it does not prove absence."},
+            "level_text": SEQ_LEVEL + "C06 oracle: transition table and claim rule as data; every request shape (state field, implied by claim, claim <id>, at creation; three input modes) judged; invariants (six states, doing/error claimed, todo/done/canceled unclaimed, epics stateless) after every step."},
+    "C07": {"level": "exploration", "parts": [seq("TestC07", 60, 1500)], "assumptions": COMMON_ASSUMPTIONS,
+            "technique": "model-based stateful property testing (rapid): generated sequence / sequence rm / plan / prune histories vs a reference edge set; graph invariants (acyclic, same-kind, live endpoints, deps/rdeps mirror) after every step",
+            "level_text": SEQ_LEVEL + "C07 oracle: a sequence request is MUST_REJECT exactly when the model says it would add a self / cross-kind / dangling / cyclic edge, otherwise exactly the named edges appear; sequence rm A B removes exactly B->A; deps/rdeps mirror each other in show."},
+    "C09": {"level": "exploration", "parts": [seq("TestC09", 60, 1500)], "assumptions": COMMON_ASSUMPTIONS,
+            "technique": "model-based stateful property testing (rapid): prune dry-run/apply sets vs the model's finished-work set; pruned ids must behave as nonexistent under every later command",
+            "level_text": SEQ_LEVEL + "C09 oracle: dry-run ids == applied ids == model set (done/canceled tasks, then childless epics), dry run writes nothing; afterwards every command on a pruned id is MUST_REJECT and changes nothing; edges to pruned items disappear and readiness follows."},
+    "C10": {"level": "exploration", "parts": [seq("TestC10", 60, 1500)], "assumptions": COMMON_ASSUMPTIONS,
+            "technique": "stateful property testing (rapid) with failure injection: generated failing commands; oracle = observable snapshot and raw log bytes identical before/after any non-zero exit",
+            "level_text": SEQ_LEVEL + "C10 oracle (no model needed): exit != 0 implies the full snapshot (list --all, --epics, show of every id, timestamps included) and the log bytes are unchanged; about half the generated commands are built to fail after an earlier part could have been written."},
+    "C14": {"level": "exploration", "parts": [seq("TestC14", 60, 1500)], "assumptions": COMMON_ASSUMPTIONS,
+            "technique": "model-based stateful property testing (rapid): epic references drawn from every role; invariant 'every epic_id names a live epic' after every step",
+            "level_text": SEQ_LEVEL + "C14 oracle: requests whose epic id is unknown / pruned / a plain task are MUST_REJECT and leave the store untouched; after every step each task's epic_id is empty or a live epic's id and epics have none."},
+    "C15": {"level": "exploration", "parts": [seq("TestC15", 60, 1500)], "assumptions": COMMON_ASSUMPTIONS,
+            "technique": "stateful property testing (rapid) over two-level dependency graphs: progress invariant (todo work and nothing held => some task ready, claim != no_ready) after every step",
+            "level_text": SEQ_LEVEL + "C15 oracle: whenever a task is todo and none is doing/blocked/error, list must show a ready task and claim on a copy must hand one out; requests that would close a cycle in the combined waits-for relation are MUST_REJECT."},
+    "C16": {"level": "exploration", "parts": [seq("TestC16", 60, 1500)], "assumptions": COMMON_ASSUMPTIONS,
+            "technique": "stateful property testing (rapid): strict single-JSON-value decoding of stdout for every command and reply-vs-read agreement",
+            "level_text": SEQ_LEVEL + "C16 oracle: success => stdout is exactly one JSON value; failure => non-zero exit, stderr explanation, stdout empty or one error object; reported ids (fresh, six upper-case characters), state, claimant, claimed_at, edges, pruned ids, plan ids equal the immediately following show/list."},
+    "C20": {"level": "exploration", "parts": [seq("TestC20", 60, 1500)], "assumptions": COMMON_ASSUMPTIONS,
+            "technique": "model-based stateful property testing (rapid): generated result paths/summaries/targets; confinement predicate, sha256 recomputed by the harness, newest-first result list preserved across later commands and compaction",
+            "level_text": SEQ_LEVEL + "C20 oracle: escaping / absolute / .ergo / missing / directory paths and non-task targets are MUST_REJECT; plain in-tree files MUST_ACCEPT with path == cleaned path, sha256 == harness hash, file_url == file:// + absolute path; results array equals the model's newest-first list after every later command."},
 }
